@@ -8,12 +8,17 @@
 //                   repeated calls for an unchanged source cell
 //   mode quantile : one law per case: icdf at several percentages, pdf at several points,
 //                   GammaKernel::cdf
+//   mode factory  : the same protocol for kernels built from a Config (dispersal_stochasticity off) through
+//                   create_natural_kernel / create_anthro_kernel / create_dynamic_kernel; the det.new line
+//                   carries the configured parameters
 //   mode witness  : fixed inputs of the open findings F21 (power law, exponential power, gamma
 //                   with non-integer shape), F23 (two-sided law, percentage < 1/2) and F25 (density
 //                   unbounded at the centre: Weibull shape < 1)
 // Doubles that go INTO the library are dyadic rationals printed as num/den; doubles that come OUT
 // are printed as their IEEE-754 bit pattern (decimal uint64) so the driver reads them exactly.
 #include <pops/deterministic_kernel.hpp>
+#include <pops/model.hpp>
+#include <functional>
 #include <cstring>
 #include <cmath>
 #include <random>
@@ -42,6 +47,7 @@ static bool uses_shape(int li) { return li == 2 || li == 6 || li == 8 || li == 9
 
 struct Probe : DeterministicDispersalKernel<IR> {
     using DeterministicDispersalKernel<IR>::DeterministicDispersalKernel;
+    Probe(const DeterministicDispersalKernel<IR>& k) : DeterministicDispersalKernel<IR>(k) {}
     int nr() const { return number_of_rows; }
     int nc() const { return number_of_columns; }
     double md() const { return max_distance; }
@@ -125,13 +131,64 @@ static Probe* emit_new(std::ostream& out, const char* lawname, DispersalKernelTy
     return k;
 }
 
+typedef std::function<std::tuple<int, int>(int, int)> CallFn;
+static void emit_call(std::ostream& out, const CallFn& k, int row, int col, int n);
 static void emit_call(std::ostream& out, Probe& k, int row, int col, int n) {
     std::default_random_engine g;
+    emit_call(out, CallFn([&](int r, int c) { return k(g, r, c); }), row, col, n);
+}
+static void emit_call(std::ostream& out, const CallFn& k, int row, int col, int n) {
     out << "det.call " << row << " " << col << " " << n << " => ";
     int r = 0, c = 0;
-    std::string e = ::verif::err_kind([&] { std::tie(r, c) = k(g, row, col); });
+    std::string e = ::verif::err_kind([&] { std::tie(r, c) = k(row, col); });
     if (e.empty()) out << r << " " << c << "\n"; else out << e << "\n";
     stats.add("calls");
+}
+
+// resolutions: the window gets 1..15 cells per axis; ns != ew most of the time
+static void choose_resolutions(Rng& rng, int li, Dy scale, Dy shape, Dy pct, Dy& ns, Dy& ew) {
+    double dmax = 0; bool have = false;
+    std::string e0 = ::verif::err_kind([&] { dmax = law_icdf(li, scale.v(), uses_shape(li) ? shape.v() : 1.0, pct.v()); have = true; });
+    (void)e0;
+    for (int attempt = 0; attempt < 40; attempt++) {
+        if (have && dmax > 0 && std::isfinite(dmax)) {
+            double ur = rng.in(3, 75) / 10.0, uc = rng.in(3, 75) / 10.0;
+            ns = dyadic_near(dmax / ur, 16, 1); ew = dyadic_near(dmax / uc, 16, 1);
+        } else { ns = Dy{rng.in(1, 128), 16}; ew = Dy{rng.in(1, 128), 16}; }
+        if (rng.coin(12)) ew = ns;
+        if (!have || !(dmax > 0)) break;
+        double hr = std::ceil(dmax / ns.v()), hc = std::ceil(dmax / ew.v());
+        if (hr <= 15 && hc <= 15) break;
+        if (attempt == 39) { ns = dyadic_near(dmax / 2.0, 16, 1); ew = dyadic_near(dmax / 3.0, 16, 1); }
+    }
+}
+
+// several source cells in sequence (partial runs, revisits, the same cell again)
+static void run_sources(::verif::Case& c, IR& disp, const CallFn& k, int& nsrc, long& total) {
+    Rng& rng = c.rng; std::ostream& out = c.out;
+    nsrc = rng.in(2, 4);
+    int prev_r = -1, prev_c = -1; total = 0;
+    std::vector<std::pair<int, int>> used;
+    for (int s = 0; s < nsrc; s++) {
+        int r, cc;
+        if (s >= 2 && rng.coin(30)) { auto pr = used[(size_t)rng.in(0, (int)used.size() - 2)]; r = pr.first; cc = pr.second; stats.add("source_revisited"); }
+        else do { r = rng.in(0, 6); cc = rng.in(0, 6); } while (r == prev_r && cc == prev_c);
+        int n = rng.coin(25) ? rng.in(1, 6) : (rng.coin(60) ? rng.in(7, 90) : rng.in(91, 320));
+        disp(r, cc) = n;
+        int calls = n;
+        bool last = s == nsrc - 1;
+        if (!last && rng.coin(20)) { calls = rng.in(1, n); if (calls < n) stats.add("partial_run"); }
+        for (int q = 0; q < calls; q++) emit_call(out, k, r, cc, n);
+        total += calls;
+        // the same source cell again without any other cell in between: no reset happens
+        if (calls == n && rng.coin(12)) {
+            int n2 = rng.in(1, 12); disp(r, cc) = n2;
+            for (int q = 0; q < n2; q++) emit_call(out, k, r, cc, n2);
+            stats.add("same_source_again"); total += n2;
+        }
+        used.push_back({r, cc}); prev_r = r; prev_c = cc;
+        stats.add("source_runs");
+    }
 }
 
 static void alloc_case(::verif::Case& c) {
@@ -156,22 +213,8 @@ static void alloc_case(::verif::Case& c) {
         Built b; Probe* k = emit_new(out, LAWS[li], TYPES[li], disp, pct, Dy{16, 16}, Dy{24, 16}, s2, h2, b);
         delete k; stats.add("out_of_domain_params"); return;
     }
-    double dmax = 0; bool have = false;
-    std::string e0 = ::verif::err_kind([&] { dmax = law_icdf(li, scale.v(), uses_shape(li) ? shape.v() : 1.0, pct.v()); have = true; });
-    (void)e0;
-    // resolutions: the window gets 1..15 cells per axis; ns != ew most of the time
     Dy ns{16, 16}, ew{16, 16};
-    for (int attempt = 0; attempt < 40; attempt++) {
-        if (have && dmax > 0 && std::isfinite(dmax)) {
-            double ur = rng.in(3, 75) / 10.0, uc = rng.in(3, 75) / 10.0;
-            ns = dyadic_near(dmax / ur, 16, 1); ew = dyadic_near(dmax / uc, 16, 1);
-        } else { ns = Dy{rng.in(1, 128), 16}; ew = Dy{rng.in(1, 128), 16}; }
-        if (rng.coin(12)) ew = ns;
-        if (!have || !(dmax > 0)) break;
-        double hr = std::ceil(dmax / ns.v()), hc = std::ceil(dmax / ew.v());
-        if (hr <= 15 && hc <= 15) break;
-        if (attempt == 39) { ns = dyadic_near(dmax / 2.0, 16, 1); ew = dyadic_near(dmax / 3.0, 16, 1); }
-    }
+    choose_resolutions(rng, li, scale, shape, pct, ns, ew);
     if (ns.num != ew.num) stats.add("ns_ne_ew");
     Built b;
     Probe* kp = emit_new(out, LAWS[li], TYPES[li], disp, pct, ew, ns, scale, uses_shape(li) || rng.coin(50) ? shape : Dy{8, 8}, b);
@@ -183,32 +226,98 @@ static void alloc_case(::verif::Case& c) {
         stats.add("no_window"); delete kp; return;
     }
     if (k.nr() != k.nc()) stats.add("window_nonsquare");
-    // several source cells in sequence
-    int nsrc = rng.in(2, 4);
-    int prev_r = -1, prev_c = -1; long total = 0;
-    std::vector<std::pair<int, int>> used;
-    for (int s = 0; s < nsrc; s++) {
-        int r, cc;
-        if (s >= 2 && rng.coin(30)) { auto pr = used[(size_t)rng.in(0, (int)used.size() - 2)]; r = pr.first; cc = pr.second; stats.add("source_revisited"); }
-        else do { r = rng.in(0, 6); cc = rng.in(0, 6); } while (r == prev_r && cc == prev_c);
-        int n = rng.coin(25) ? rng.in(1, 6) : (rng.coin(60) ? rng.in(7, 90) : rng.in(91, 320));
-        disp(r, cc) = n;
-        int calls = n;
-        bool last = s == nsrc - 1;
-        if (!last && rng.coin(20)) { calls = rng.in(1, n); if (calls < n) stats.add("partial_run"); }
-        for (int q = 0; q < calls; q++) emit_call(out, k, r, cc, n);
-        total += calls;
-        // the same source cell again without any other cell in between: no reset happens
-        if (calls == n && rng.coin(12)) {
-            int n2 = rng.in(1, 12); disp(r, cc) = n2;
-            for (int q = 0; q < n2; q++) emit_call(out, k, r, cc, n2);
-            stats.add("same_source_again"); total += n2;
-        }
-        used.push_back({r, cc}); prev_r = r; prev_c = cc;
-        stats.add("source_runs");
-    }
+    int nsrc = 0; long total = 0;
+    run_sources(c, disp, CallFn([&](int r, int cc) { std::default_random_engine g; return k(g, r, cc); }), nsrc, total);
     c.nontrivial = k.nr() * k.nc() >= 9 && nsrc >= 2 && total >= 10;
     delete kp;
+}
+
+// ------------------------------------------------------------------------------ factory mode
+// The deterministic kernel as a user gets it: Config with dispersal_stochasticity = false, built by
+// create_natural_kernel / create_anthro_kernel / create_dynamic_kernel (the latter is what Model
+// uses by default).  The det.new line carries the CONFIGURED parameters, so the window, weight and
+// allotment predicates of C14 are evaluated against what the configuration asks for.
+static const char* CFGNAMES[] = {"cauchy", "exponential", "weibull", "normal", "log-normal", "hyperbolic-secant", "power-law", "logistic", "gamma", "exponential-power"};
+typedef std::default_random_engine FGen;
+template <class K, class G> struct WrapProbe : DynamicWrapperKernel<K, G> {
+    static K& get(DynamicWrapperKernel<K, G>& w) { return w.*(&WrapProbe::kernel_); }
+};
+template <class G> struct DynProbe : DispersalKernel<G> {
+    using Base = DispersalKernel<G>;
+    static KernelInterface<G>* nat(Base& k) { return (k.*(&DynProbe::natural_kernel_)).get(); }
+    static KernelInterface<G>* ant(Base& k) { return (k.*(&DynProbe::anthropogenic_kernel_)).get(); }
+};
+
+static void factory_case(::verif::Case& c) {
+    Rng& rng = c.rng; std::ostream& out = c.out;
+    int li = (int)(c.index % 10);
+    int side = (int)((c.index / 10) % 2);          // 0: natural kernel under test, 1: anthropogenic
+    int via = (int)((c.index / 20) % 2);           // 0: create_*_kernel, 1: create_dynamic_kernel
+    Dy scale, shape; random_params(rng, li, scale, shape);
+    int lo = rng.in(0, 9); Dy oscale, oshape_unused; random_params(rng, lo, oscale, oshape_unused);
+    // one shape for both kernels (Config has a single shape): it must be in the domain of both laws
+    if (lo == 2 && shape.num < 8) lo = 0;
+    if (lo == 9 && shape.num < 4) lo = 0;
+    if (lo == 6 && oscale.num <= 8) oscale.num = 12;
+    if (oscale.num == scale.num) oscale.num += 3;
+    Dy pct = Dy{rng.in(33, 63), 64};
+    if (two_sided(lo)) {}  // the other kernel is built too; pct > 1/2 keeps its window in the domain
+    Dy ns{16, 16}, ew{16, 16};
+    choose_resolutions(rng, li, scale, shape, pct, ns, ew);
+    if (ns.num == ew.num && rng.coin(85)) ew.num = ns.num + rng.in(1, 24);
+    stats.add(std::string("factory_law_") + LAWS[li]); stats.add(side ? "factory_anthro" : "factory_natural"); stats.add(via ? "factory_dynamic" : "factory_direct");
+    if (ns.num != ew.num) stats.add("ns_ne_ew");
+    Config config;
+    config.rows = 7; config.cols = 7;
+    config.ew_res = ew.v(); config.ns_res = ns.v();
+    config.dispersal_stochasticity = false;
+    config.dispersal_percentage = pct.v();
+    config.shape = shape.v();
+    config.natural_kernel_type = side == 0 ? CFGNAMES[li] : CFGNAMES[lo];
+    config.anthro_kernel_type = side == 1 ? CFGNAMES[li] : CFGNAMES[lo];
+    config.natural_scale = side == 0 ? scale.v() : oscale.v();
+    config.anthro_scale = side == 1 ? scale.v() : oscale.v();
+    config.natural_direction = "none"; config.anthro_direction = "none";
+    config.natural_kappa = 0; config.anthro_kappa = 0;
+    config.use_anthropogenic_kernel = side == 1 || rng.coin(50);
+    config.percent_natural_dispersal = side == 1 ? 0.0 : 1.0;   // the mix always selects the kernel under test
+    IR disp(7, 7, 0);
+    BBox<double> bbox; bbox.north = 100; bbox.south = 0; bbox.east = 100; bbox.west = 0;
+    Network<int> net(bbox, 10, 10);
+    std::unique_ptr<KernelInterface<FGen>> direct;
+    std::unique_ptr<DispersalKernel<FGen>> dyn;
+    KernelInterface<FGen>* under_test = nullptr;
+    typedef DynamicWrapperKernel<DeterministicDispersalKernel<IR>, FGen> Wrap;
+    out << "det.new " << LAWS[li] << " " << pct.s() << " " << ew.s() << " " << ns.s() << " " << scale.s() << " " << shape.s() << " => ";
+    std::string e = ::verif::err_kind([&] {
+        if (via == 0) {
+            if (side == 0) direct = create_natural_kernel<FGen, IR, int>(config, disp);
+            else direct = create_anthro_kernel<FGen, IR, int>(config, disp, net);
+            under_test = direct.get();
+        } else {
+            dyn.reset(new DispersalKernel<FGen>(create_dynamic_kernel<FGen, IR, int>(config, disp, net)));
+            under_test = side == 0 ? DynProbe<FGen>::nat(*dyn) : DynProbe<FGen>::ant(*dyn);
+        }
+    });
+    if (!e.empty()) { out << e << "\n"; stats.add("factory_new_" + e.substr(4)); return; }
+    Wrap* w = dynamic_cast<Wrap*>(under_test);
+    if (!w) { out << "err:other\n"; stats.add("factory_not_deterministic"); return; }
+    Probe k(WrapProbe<DeterministicDispersalKernel<IR>, FGen>::get(*w));
+    out << "ok " << k.nr() << " " << k.nc() << " " << bits(k.md()) << "\n";
+    if (k.nr() >= 1 && k.nc() >= 1) {
+        out << "det.prob " << k.nr() << " " << k.nc() << " =>";
+        for (int i = 0; i < k.nr(); i++) for (int j = 0; j < k.nc(); j++) out << " " << bits(k.p(i, j));
+        out << "\n";
+    } else { stats.add("no_window"); return; }
+    stats.add("window_cells", (long)k.nr() * k.nc());
+    FGen g((unsigned)rng.next());
+    RandomNumberGeneratorProvider<FGen> prov((unsigned)rng.next());
+    // calls go through the object a user holds: the wrapper, or the natural/anthropogenic mix
+    CallFn call = via == 0 ? CallFn([&](int r, int cc) { return (*direct)(g, r, cc); })
+                           : CallFn([&](int r, int cc) { return (*dyn)(prov, r, cc); });
+    int nsrc = 0; long total = 0;
+    run_sources(c, disp, call, nsrc, total);
+    c.nontrivial = k.nr() * k.nc() >= 9 && nsrc >= 2 && total >= 10;
 }
 
 static void quantile_case(::verif::Case& c) {
@@ -303,6 +412,7 @@ int main(int argc, char** argv) {
     if (frombits(bits(0.1)) != 0.1 || bits(1.0) != 0x3FF0000000000000ULL) { std::cerr << "bit transport self-test failed\n"; return 3; }
     if (mode == "alloc") ::verif::run_cases("h_det", mode, seed, first, count, alloc_case);
     else if (mode == "quantile") ::verif::run_cases("h_det", mode, seed, first, count, quantile_case);
+    else if (mode == "factory") ::verif::run_cases("h_det", mode, seed, first, count, factory_case);
     else if (mode == "witness") ::verif::run_cases("h_det", mode, seed, first, count, witness_case);
     else { std::cerr << "unknown mode " << mode << "\n"; return 2; }
     stats.dump("h_det");
